@@ -239,7 +239,9 @@ pub fn main(entries: Vec<GrammarEntry>) -> ! {
             .unwrap();
         handles.push(h);
     }
-    // watchdog
+    // watchdog: a case that stays current for longer than the timeout is only *suspected* to hang (a loaded
+    // machine can starve a thread); the suspicion is confirmed by re-running exactly that case in a fresh
+    // process under a hard time limit before anything is reported
     {
         let current = current.clone();
         let done = done.clone();
@@ -247,23 +249,70 @@ pub fn main(entries: Vec<GrammarEntry>) -> ! {
         let total = total.clone();
         let out = opts.out.clone();
         let lens = opts.lens.clone();
-        std::thread::spawn(move || loop {
-            std::thread::sleep(Duration::from_millis(500));
-            if done.load(Ordering::SeqCst) {
-                break;
-            }
-            let c = current.lock().unwrap();
-            for (what, since) in c.iter() {
-                if !what.is_empty() && since.elapsed() > Duration::from_secs(timeout) {
-                    // a parse that does not return: report and give up
-                    let mut rep = total.lock().unwrap();
-                    rep.hangs.push(what.clone());
-                    let j = rep.to_json(&lens, 0.0, false);
-                    if let Some(p) = &out {
-                        let _ = std::fs::write(p, j.to_string());
+        let thorough = opts.thorough;
+        std::thread::spawn(move || {
+            let mut cleared: std::collections::HashMap<String, u32> = std::collections::HashMap::new();
+            loop {
+                std::thread::sleep(Duration::from_millis(500));
+                if done.load(Ordering::SeqCst) {
+                    break;
+                }
+                let suspects: Vec<String> = {
+                    let c = current.lock().unwrap();
+                    c.iter()
+                        .filter(|(what, since)| {
+                            let extra = cleared.get(what).copied().unwrap_or(0) as u64;
+                            !what.is_empty() && since.elapsed() > Duration::from_secs(timeout * (1 + 10 * extra))
+                        })
+                        .map(|(what, _)| what.clone())
+                        .collect()
+                };
+                for what in suspects {
+                    let parts: Vec<&str> = what.split('\u{1}').collect();
+                    let confirmed = if parts.len() >= 3 {
+                        let exe = std::env::current_exe().expect("exe");
+                        let mut cmd = std::process::Command::new(exe);
+                        cmd.args(["--lens", &lens, "--tier", if thorough { "thorough" } else { "quick" }, "--only-grammar", parts[0], "--only-rule", parts[1], "--only-input", parts[2], "--threads", "1", "--case-timeout", "100000"])
+                            .stdout(std::process::Stdio::null())
+                            .stderr(std::process::Stdio::null());
+                        match cmd.spawn() {
+                            Ok(mut child) => {
+                                let t = Instant::now();
+                                let mut finished = false;
+                                while t.elapsed() < Duration::from_secs(120) {
+                                    if let Ok(Some(_)) = child.try_wait() {
+                                        finished = true;
+                                        break;
+                                    }
+                                    std::thread::sleep(Duration::from_millis(200));
+                                }
+                                if !finished {
+                                    let _ = child.kill();
+                                }
+                                !finished
+                            }
+                            Err(_) => true,
+                        }
+                    } else {
+                        true
+                    };
+                    if confirmed {
+                        let mut rep = total.lock().unwrap();
+                        rep.hangs.push(what.replace('\u{1}', ":"));
+                        let j = rep.to_json(&lens, 0.0, false);
+                        if let Some(p) = &out {
+                            let _ = std::fs::write(p, j.to_string());
+                        }
+                        println!("HANG case={}", what.replace('\u{1}', ":"));
+                        std::process::exit(3);
                     }
-                    println!("HANG case={}", what);
-                    std::process::exit(3);
+                    let n = cleared.entry(what.clone()).or_insert(0);
+                    *n += 1;
+                    if *n > 3 {
+                        // stuck in this process although the same case returns in a fresh one: not a verdict
+                        eprintln!("MACHINERY: case {:?} does not return in-process but returns when re-run", what);
+                        std::process::exit(2);
+                    }
                 }
             }
         });
